@@ -720,7 +720,16 @@ def rule_hd_startwin(cx, rep, port):
     e1, e2 = end_positions(f1), end_positions(f2)
     ok1 = any(plus for _, plus in e1)
     ok2 = bool(e2) and not any(plus for _, plus in e2)
-    rep.decide(ok1 and ok2, 'comma handling', e1[0][0] if e1 else f1, 'record side consumes the comma after a star (the concatenation replaces it); header side keeps it', 'comma handling after a star item changed: the record-side and header-side item counts would differ')
+
+    def plain_position(n):
+        # `pos = m.end()` / `pos = m.end() + 1` (JS: m.index + m[0].length [+ 1]) and nothing else
+        t = node_text(n.value, 200).replace(' ', '')
+        import re as _re
+        return bool(_re.fullmatch(r'\w+\.end\(\)(\+1)?|\w+\.index\+len\(\w+\[0\]\)(\+1)?', t))
+    if not (ok1 and ok2) and not (e1 and e2 and all(plain_position(n) for n, _ in e1 + e2)):
+        rep.undecided('comma handling', f1, 'how the two star rewrites step over the comma after a star item was not recognised')
+    else:
+        rep.decide(ok1 and ok2, 'comma handling', e1[0][0] if e1 else f1, 'record side consumes the comma after a star (the concatenation replaces it); header side keeps it', 'comma handling after a star item changed: the record-side and header-side item counts would differ')
     # wrapping: '[{}]' / '[].concat([...])'
     ts = p.func(mod, 'translate_select_expression')
     rets = [r for r in walk_no_nested(ts) if isinstance(r, ast.Return)]
@@ -1029,6 +1038,100 @@ def rule_va_index(cx, rep, port):
     okj = alpha_equal(sj, "def safe_join_get(record, idx):\n    try:\n        return record[idx]\n    except IndexError:\n        raise InternalBadFieldError(idx)") or alpha_equal(sj, "def safe_join_get(record, idx):\n    if idx < len(record):\n        return record[idx]\n    raise InternalBadFieldError(idx)")
     rep.decide(okj, 'safe_join_get', sj, 'join key field or the bad-field error', 'safe_join_get no longer returns the field or raises InternalBadFieldError(idx) beyond the record')
     gi = p.func(mod, 'generate_init_statements')
+    gm = _init_statements_model(cx, port, p, mod, gi)
+    if gm is not None:
+        for k_, good_ in (('a-variable init', 'aN = safe_get(record_a, index)'), ('b-variable init', 'bN = safe_get(record_b, index), None when record_b is None'),
+                          ('initialize flag', 'only variables flagged initialize are bound'), ('NR aliases', 'a.NR/aNR = NR, b.NR = bNR, each only when the query mentions it')):
+            rep.decide(gm[k_] is None, k_, gi, good_ + ' ({} scenarios evaluated)'.format(gm['__n__']), gm[k_] or '')
+        return
+    with rep.as_fallback('generate_init_statements is outside the abstract interpreter'):
+        _va_index_init_shape(cx, rep, port, p, mod, gi)
+
+
+def _init_statements_model(cx, port, p, mod, gi):
+    """generate_init_statements evaluated on an abstract query text (every combination of "mentions a.NR / aNR / b.NR"), an A variable
+    map of four variables (one not to be initialised, one attribute-style, one subscript-style name) and a B map (absent / three
+    variables): the generated lines are compared with the binding table.  {obligation: problem or None}; None when outside the interpreter"""
+    import re as _re
+    from .. import absexec as AX
+    res = {'a-variable init': None, 'b-variable init': None, 'initialize flag': None, 'NR aliases': None}
+    n_args = len(gi.args.args)
+    if n_args not in (3, 4):
+        return None
+    a_vars = [('a1', True, 0), ('a2', False, 1), ('a.name', True, 2), ('a["x y"]', True, 3)]
+    b_vars = [('b1', True, 0), ('b.z', True, 5), ('b2', False, 1)]
+
+    def norm(line):
+        line = _re.sub(r'\s+', ' ', line.strip())
+        return _re.sub(r' ?([=(),;?:]) ?', r'\1', line)
+    n = 0
+    try:
+        for with_b in (False, True):
+            qt = AX.Abs('Query')
+
+            def mk(vs):
+                d = {}
+                for name, init, idx in vs:
+                    d[name] = AX.Abs('VarInfo', initialize=init, index=idx)
+                return d
+
+            def on_attr(ex, node, obj, attr):
+                if isinstance(obj, AX.Abs) and obj.kind == 'VarInfo' and attr in ('initialize', 'index'):
+                    return obj.props[attr]
+                return AX.NOT_HANDLED
+
+            def on_call(ex, node, fname, recv, args):
+                short = node.func.attr if isinstance(node.func, ast.Attribute) else fname
+                if recv is qt and short in ('find', 'indexOf', 'includes', 'count') and len(args) == 1 and isinstance(args[0], str):
+                    key = ('mentions', args[0])
+                    if key not in ex.run.state:
+                        ex.run.state[key] = ex.choose('query mentions ' + args[0], [False, True])
+                    has = ex.run.state[key]
+                    return has if short == 'includes' else ((0 if has else -1) if short != 'count' else int(has))
+                return AX.NOT_HANDLED
+            ex = AX.Explorer(p, mod, on_call=on_call, on_attr=on_attr, max_choices=4)
+            args = [qt, mk(a_vars), mk(b_vars) if with_b else None] + (['    '] if n_args == 4 else [])
+            runs, cut = ex.explore(gi, args)
+            if cut or not runs:
+                return None
+            for r in runs:
+                n += 1
+                if r.outcome[0] != 'return' or not isinstance(r.outcome[1], str):
+                    return None
+                lines = [norm(x) for x in r.outcome[1].split('\n')]
+                m = {k[1]: v for k, v in r.state.items() if isinstance(k, tuple) and len(k) == 2 and k[0] == 'mentions'}
+                when = 'for a query that mentions {}'.format(', '.join(sorted(k for k, v in m.items() if v)) or 'no record-number alias')
+                py = port == 'py'
+                end = '' if py else ';'
+                want_alias = [norm(x) for x in (['a.NR = NR' + end] if m.get('a.NR') else []) + (['aNR = NR' + end] if m.get('aNR') else []) + (['b.NR = bNR' + end] if with_b and m.get('b.NR') else [])]
+                got_alias = [x for x in lines if _re.fullmatch(r'(var )?[ab]\.?NR=\w+;?', x)]
+                if sorted(got_alias) != sorted(want_alias) or ('a.NR' not in m) or ('aNR' not in m) or (with_b and 'b.NR' not in m):
+                    res['NR aliases'] = res['NR aliases'] or '{} the record-number aliases bound are {} instead of {}'.format(when, got_alias, want_alias)
+                for tag, vs, rec in (('a', a_vars, 'record_a'), ('b', b_vars if with_b else [], 'record_b')):
+                    for name, init, idx in vs:
+                        if py:
+                            w = '{} = safe_get({}, {})'.format(name, rec, idx) + ('' if tag == 'a' else ' if record_b is not None else None')
+                        else:
+                            kw_ = 'var ' if _re.fullmatch(r'[_0-9a-zA-Z]+', name) else ''
+                            w = '{}{} = safe_get(record_a, {});'.format(kw_, name, idx) if tag == 'a' else '{}{} = record_b === null ? null : safe_get(record_b, {});'.format(kw_, name, idx)
+                        w = norm(w)
+                        binds = [x for x in lines if x.startswith(norm(name + ' =')) or x.startswith(norm('var ' + name + ' ='))]
+                        if init and binds != [w]:
+                            res[tag + '-variable init'] = res[tag + '-variable init'] or 'variable {} (column {}) is initialised by {} instead of `{}`'.format(name, idx + 1, binds or 'nothing', w)
+                        if not init and binds:
+                            res['initialize flag'] = res['initialize flag'] or 'variable {} is not used by the query (initialize = False) but is bound: `{}`'.format(name, binds[0])
+                if not with_b and any('record_b' in x or x.startswith('b=') for x in lines):
+                    res['b-variable init'] = res['b-variable init'] or 'B-side initialisation is generated for a query without JOIN'
+    except (Undecided, KeyError, IndexError, TypeError, AttributeError, ValueError) as e_:
+        import os
+        if os.environ.get('RBQL_VERIF_DEBUG'):
+            print('init statements model gave up:', type(e_).__name__, e_)
+        return None
+    res['__n__'] = n
+    return res
+
+
+def _va_index_init_shape(cx, rep, port, p, mod, gi):
     tmpl = [c.value if isinstance(c, ast.Constant) else const_value(c) for c in ast.walk(gi) if isinstance(c, (ast.Constant, ast.JoinedStr))]
     tm = [t for t in tmpl if isinstance(t, str)]
     txt = node_text(gi, 4000)
